@@ -38,7 +38,7 @@ def content(n):
     return bytes((i * 7 + 3) % 256 for i in range(n))
 
 
-def make_script(verb, size, timing):
+def make_script(verb, size, timing, env="plain"):
     async def script(ctl):
         install_abor_probe(ctl)
         c = await ctl.client()
@@ -47,6 +47,11 @@ def make_script(verb, size, timing):
         ctl.notes["phase"] = "before"
         if timing == "early":
             await ctl.data(c)
+            if env == "unread" and c.data is not None:
+                sp = c.data[1].transport.peer
+                sp.hold = True
+                sp.HIGH = 256
+                ctl.notes["unread"] = True
         line = {"RETR": "RETR big.bin", "STOR": "STOR up.bin", "APPE": "APPE f.txt", "LIST": "LIST", "MLSD": "MLSD d"}[verb]
         await ctl.send(c, line)
         ctl.notes["phase"] = "sent"
@@ -60,6 +65,11 @@ def make_script(verb, size, timing):
         if c.data is None:
             return
         dr, dw = c.data
+        if env == "unread":
+            await asyncio.sleep(3)
+            await ctl.loop.settle()
+            ctl.notes["phase"] = "done"
+            return
         if verb in ("STOR", "APPE"):
             data = content(size)
             for i in range(0, len(data), 50):
@@ -101,6 +111,7 @@ def install_abor_probe(ctl):
             have_data = any(t.name.startswith("s") and getattr(t, "port", None) == port for t in wd.net.all_transports)
             pos = "body" if have_data else "wait"
         ctl.notes["abor_pos"] = pos
+        ctl.notes["abor_inside_backend"] = wd.spy.current
         ctl.notes["abor_logged"] = wd._get(connection, "logged")[0]
         return await orig(connection, rest)
 
@@ -108,23 +119,39 @@ def install_abor_probe(ctl):
 
 
 def corpus(thorough=False):
+    """(verb, size, data-connection timing, environment)"""
     out = []
     sizes = [0, 1, 63, 64, 65, 200, 768] if thorough else [0, 1, 64, 65, 200]
     for verb in ("RETR", "STOR", "APPE"):
         for size in sizes:
             for timing in ("early", "late"):
-                out.append((verb, size, timing))
-        out.append((verb, 200, "never"))
+                out.append((verb, size, timing, "plain"))
+        out.append((verb, 200, "never", "plain"))
+        # speed limit active (the worker sleeps in the throttle), slow backend (every backend call suspends)
+        out.append((verb, 200, "early", "throttled"))
+        out.append((verb, 200, "early", "slow-backend"))
+        out.append((verb, 65, "late", "slow-backend"))
+    # the peer made the data connection but never reads from it: ABOR must be answered without it draining
+    out.append(("RETR", 4096, "early", "unread"))
     for verb in ("LIST", "MLSD"):
         for timing in ("early", "late", "never"):
-            out.append((verb, 0, timing))
+            out.append((verb, 0, timing, "plain"))
+        out.append((verb, 0, "early", "slow-backend"))
+        out.append((verb, 0, "early", "throttled"))
     return out
 
 
 def scenario_of(spec):
-    verb, size, timing = spec
+    verb, size, timing, env = spec
     tree = S.TREE + [(("big.bin",), content(size))]
-    return Scenario("%s-%d-%s" % spec, make_script(verb, size, timing), tree=tree, server_kwargs={"block_size": BS})
+    kw = {"block_size": BS}
+    spy_setup = None
+    if env == "throttled":
+        kw.update({"write_speed_limit": 10 * BS, "read_speed_limit": 10 * BS})
+    if env == "slow-backend":
+        def spy_setup(spy, loop):
+            spy.delay = 0.01
+    return Scenario("%s-%d-%s-%s" % spec, make_script(verb, size, timing, env), tree=tree, server_kwargs=kw, spy_setup=spy_setup)
 
 
 def inject_abor(ctl, script_task, state):
@@ -160,6 +187,14 @@ async def after_abor(ctl, state, res):
         return
     c = ctl.clients[0]
     await loop.settle()
+    if ctl.notes.get("unread"):
+        # the peer does not read the data connection: the answer to ABOR must not depend on it draining
+        await asyncio.sleep(2.5)
+        await loop.settle()
+        res["after_abor_undrained"] = [int(x) if x.isdigit() else -1 for x, _ in c.replies[state.get("n_replies", 0) :]]
+        if c.data is not None:
+            c.data[1].transport.peer.release()
+            await loop.settle()
     # drain / close our side of the data connection
     got_tail = b""
     if c.data is not None:
@@ -179,6 +214,7 @@ async def after_abor(ctl, state, res):
     await loop.settle()
     res["after_abor"] = [int(x) if x.isdigit() else -1 for x, _ in c.replies[state.get("n_replies", 0) :]]
     res["pos"] = ctl.notes.get("abor_pos")
+    res["inside"] = ctl.notes.get("abor_inside_backend")
     res["phase"] = state.get("phase")
     res["logged"] = ctl.notes.get("abor_logged") and state.get("phase") is not None
     res["alive"] = wd.connection_of(c) is not None and not c.eof
@@ -200,7 +236,7 @@ def _job(args):
     for k in ks:
         try:
             r = SC.run_scenario(sc, k, inject_abor, after_abor)
-            out.append((k, {kk: r.get(kk) for kk in ("after_abor", "pos", "phase", "alive", "follow", "got", "stored", "server_data_closed", "skipped", "logged", "transcript", "notes")}))
+            out.append((k, {kk: r.get(kk) for kk in ("inside", "after_abor_undrained", "after_abor", "pos", "phase", "alive", "follow", "got", "stored", "server_data_closed", "skipped", "logged", "transcript", "notes")}))
         except BaseException as e:  # noqa
             out.append((k, "HARNESS-ERROR %s: %s" % (type(e).__name__, e)))
     return idx, out
@@ -218,8 +254,8 @@ def stored_bytes(tree_tok, name):
 
 
 def oracle(spec, k, r):
-    verb, size, timing = spec
-    inp = {"transfer": verb, "size": size, "data_connection": timing, "abor_at_iteration": k}
+    verb, size, timing, env = spec
+    inp = {"transfer": verb, "size": size, "data_connection": timing, "environment": env, "abor_at_iteration": k}
     if r.get("skipped") or not r.get("logged"):
         return None  # ABOR before login is a 503 matter (C03)
     aa = r["after_abor"]
@@ -230,13 +266,19 @@ def oracle(spec, k, r):
         return {"input": inp, "what": "ABOR (worker position %s) got replies %r and the server dropped the session" % (pos, aa), "signature": "C14:session-dropped:abor-while-worker-%s" % pos}
     if pos == "unreaped" and rest in ([226], [200], [451], [425], []):
         return {"input": inp, "what": "ABOR processed after the worker finished but before the dispatcher reaped it got no reply of its own (replies after ABOR: %r)" % aa, "signature": "C14:abor-unanswered:worker-finished-not-yet-reaped"}
+    if pos == "none" and len(aa) >= 2 and aa[0] == 226 and 150 in aa[1:]:
+        return {"input": inp, "what": "ABOR sent after %s was answered '226 nothing to abort' BEFORE the transfer's 150: the command's guards were still waiting for the backend, the transfer then started and ran (replies after ABOR: %r)" % (verb, aa), "signature": "C14:abor-overtakes-transfer-command-still-in-guards"}
+    und = r.get("after_abor_undrained")
+    if und is not None and pos == "body" and [c for c in und if c != 150] != [426, 226]:
+        return {"input": inp, "what": "the peer was not reading the data connection: ABOR got %r before it drained (want 426, 226)" % und, "signature": "C14:abor-waits-for-data-peer:%s" % verb.lower()}
     ok_shapes = ([226], [426, 226], [226, 226], [200, 226], [425, 226], [451, 226])
     if rest not in [list(x) for x in ok_shapes]:
         return {"input": inp, "what": "ABOR (worker position %s, phase %s) was followed by replies %r" % (pos, r["phase"], aa), "signature": "C14:bad-reply-sequence:%s" % verb.lower()}
     if pos == "body" and rest != [426, 226] and rest not in ([226, 226], [200, 226], [451, 226]):
         return {"input": inp, "what": "a running worker was interrupted but the replies were %r" % aa, "signature": "C14:interrupted-not-426-226:%s" % verb.lower()}
     if rest == [426, 226] and r.get("server_data_closed") is False:
-        return {"input": inp, "what": "transfer aborted (426, 226) but its data connection stayed open", "signature": "C14:data-open-after-abort:%s" % verb.lower()}
+        where = r.get("inside") or "between-calls"
+        return {"input": inp, "what": "transfer aborted (426, 226) while the worker was inside backend call %r, but its data connection stayed open" % where, "signature": "C14:data-open-after-abort:worker-inside-backend-%s" % where}
     if verb == "RETR" and not content(size).startswith(r["got"] or b""):
         return {"input": inp, "what": "delivered bytes are not a prefix of the file (%d bytes delivered)" % len(r["got"] or b""), "signature": "C14:not-a-prefix:retr"}
     if verb == "STOR":
@@ -267,6 +309,7 @@ def _run(ctx, compare=True):
     with mp.Pool(min(16, os.cpu_count() or 4)) as pool:
         outs = pool.map(_job, jobs, chunksize=1)
     lines, expect = [], []
+    r_full = {}
     for idx, out in outs:
         spec = specs[idx]
         for k, r in out:
@@ -285,6 +328,7 @@ def _run(ctx, compare=True):
                 lines.append("abor %s %s" % (spec[0].lower(), r["pos"]))
                 aa = [c for c in r["after_abor"] if c != 150]
                 expect.append((spec, k, r["pos"], aa, r["alive"]))
+                r_full[(spec, k)] = r["after_abor"]
     if compare and ctx.model_ok and lines:
         mout = drive(lines)
         res.lines += len(lines)
@@ -295,15 +339,16 @@ def _run(ctx, compare=True):
             ok = (mm["alive"] == ("1" if alive else "0")) and (
                 aa == mrep
                 or (pos == "none" and aa[-1:] == mrep)
+                or (pos == "none" and aa[:1] == mrep and 150 in r_full.get((spec, k), []))
                 or (pos == "unreaped" and mrep == [] and aa in ([226], [200], [451], [425], []))
                 or (pos == "body" and aa in ([226, 226], [200, 226], [451, 226]))
             )
             if not ok:
                 if len(res.disagreements) < 12:
-                    res.disagreements.append({"correspondence": "Model.Abort.abor vs real server", "input": {"transfer": spec[0], "size": spec[1], "data_connection": spec[2], "abor_at_iteration": k, "worker_position": pos}, "impl": {"replies": aa, "alive": alive}, "model": m})
+                    res.disagreements.append({"correspondence": "Model.Abort.abor vs real server", "input": {"transfer": spec[0], "size": spec[1], "data_connection": spec[2], "environment": spec[3], "abor_at_iteration": k, "worker_position": pos}, "impl": {"replies": aa, "alive": alive}, "model": m})
                 else:
                     res.count("more_disagreements")
-    res.samples = [{"transfer": "RETR", "size": 200, "data_connection": "early", "abor_at_iteration": 40}, {"transfer": "STOR", "size": 65, "data_connection": "late", "abor_at_iteration": 33}]
+    res.samples = [{"transfer": "RETR", "size": 200, "data_connection": "early", "environment": "plain", "abor_at_iteration": 40}, {"transfer": "STOR", "size": 65, "data_connection": "late", "environment": "slow-backend", "abor_at_iteration": 33}]
     res.exhaustive = True
     return res
 
@@ -317,7 +362,7 @@ def search(ctx, prior):
 
 
 def _one(inp):
-    spec = (inp["transfer"], inp["size"], inp["data_connection"])
+    spec = (inp["transfer"], inp["size"], inp["data_connection"], inp.get("environment", "plain"))
     r = SC.run_scenario(scenario_of(spec), inp["abor_at_iteration"], inject_abor, after_abor)
     return spec, r
 
